@@ -192,6 +192,7 @@ func runC36(run *mon.Run, thorough bool) {
 	run.Assume("every block of the tree is locally available (linked or in the block cache with computed state): fetching a missing previous block from the network is out of reach")
 	run.Assume("chain-extension part: the harness stands in for the finalized-block worker (it records the block, sets it as latest finalized block and reports success); in the plain growth histories notarized blocks of a round are all known before a later round is finalized; late notarizations on a competing fork (growth histories marked late, and the whole rollback part) are judged by the single-chain rule: the latest finalized block stays, moves to a descendant, or rolls back to the most recent common ancestor of itself and the notarized blocks of the latest round")
 	run.Assume("rollback part: the stand-in for the finalized-block worker refuses a block whose previous block is not the latest finalized block, as the real worker does (finalizeBlockProcess: 'previous round not finalized' / 'could not connect to lfb')")
+	run.Assume("sibling part: the stand-in for the finalized-block worker decides like the real worker, on the PrevHash field the handed-over block carries at that moment (the real worker has nothing else); whether an accepted block really descends from the latest finalized block is judged from the harness' own parent map, which no code under check can touch; the one block that is not locally available sits in the round of the latest finalized block, where the real code decides without asking the network")
 
 	// ---- exhaustive part
 	trees := 0
@@ -352,6 +353,9 @@ func runC36(run *mon.Run, thorough bool) {
 
 	// ---- rollbacks: the latest finalized block on a fork that lost, competing forks that fork again
 	c36Rollbacks(run, e, wk, rnd.Fork("rollback"), thorough)
+
+	// ---- a competing fork whose block in the round of the latest finalized block is not locally available
+	c36Siblings(run, e, wk, rnd.Fork("sibling"), thorough)
 	wk.stop()
 	// let the notification goroutines started by SetLatestFinalizedBlock drain before the state DB is closed
 	time.Sleep(50 * time.Millisecond)
@@ -362,9 +366,10 @@ type noopViewChanger struct{}
 func (noopViewChanger) ViewChange(ctx context.Context, lfb *block.Block) error { return nil }
 
 type finEvent struct {
-	b        *block.Block
-	prevLFB  *block.Block
-	accepted bool
+	b           *block.Block
+	prevLFB     *block.Block
+	accepted    bool
+	claimedPrev string // the block's PrevHash field at the moment it was handed over
 }
 
 // c36Worker stands in for FinalizedBlockWorker: it receives the blocks finalizeRound hands over, records them and
@@ -393,7 +398,7 @@ func c36StartWorker(c *chain.Chain) *c36Worker {
 			lfb := c.GetLatestFinalizedBlock()
 			wk.mu.Lock()
 			ok := !wk.requireConnected || b.PrevHash == lfb.Hash
-			wk.events = append(wk.events, finEvent{b, lfb, ok})
+			wk.events = append(wk.events, finEvent{b, lfb, ok, b.PrevHash})
 			wk.mu.Unlock()
 			if !ok {
 				res <- errors.New("could not connect to lfb")
@@ -599,8 +604,12 @@ func c36JudgeCall(run *mon.Run, pfx string, before, after *block.Block, tops []*
 		}
 		run.Count(pfx+"_finalized_descends_from_lfb", 1)
 		if ev.prevLFB != cur || ev.b == cur || !isAnc(cur, ev.b) {
-			violate(run, "C36:finalized-block-not-descendant-of-lfb", fmt.Sprintf("%s: finalizeRound handed over the block of round %d which does not descend from the latest finalized block of round %d",
-				where, ev.b.Round, cur.Round), replay)
+			note := ""
+			if p := parent[ev.b]; p != nil && ev.claimedPrev != p.Hash {
+				note = fmt.Sprintf(" (the worker accepted it because its PrevHash field named the latest finalized block at that moment; its true parent, by the harness' books, is another block of round %d)", p.Round)
+			}
+			violate(run, "C36:finalized-block-not-descendant-of-lfb", fmt.Sprintf("%s: finalizeRound handed over the block of round %d which does not descend from the latest finalized block of round %d%s",
+				where, ev.b.Round, cur.Round, note), replay)
 		}
 		cur = ev.b
 	}
@@ -993,4 +1002,342 @@ func c36Rollbacks(run *mon.Run, e *c36Env, wk *c36Worker, rnd *mon.Rand, thoroug
 		idx++
 	}
 	run.Set("rollback_scenarios", idx)
+}
+
+// ---------------------------------------------------------------------------------------------------------------
+// sibling part: the competing fork passes the round of the latest finalized block in a block that is NOT locally available
+// ---------------------------------------------------------------------------------------------------------------
+
+// c36sibSpec describes one tree (rounds count from the genesis block, round 0):
+//
+//	trunk: one block per round 1..S
+//	fork A: rounds S+1..AEnd, the latest finalized block is its block of round L (S < L <= AEnd <= T)
+//	fork B: rounds S+1..M with M >= L, so fork B has a block H in round L: with S == L-1 a SIBLING of the latest finalized
+//	    block (the forks split exactly at the round of the latest finalized block), with S < L-1 a cousin
+//	K branches of fork B: rounds M+1..T (K = 1: fork B simply goes on), all notarized in the top round T
+//	Tail further rounds without notarized blocks; Cont further rounds in which some top blocks are extended
+//
+// Hidden: H is not locally available - it is in no round and not in the block cache - and the fork-B block(s) of round L+1
+// (H's children) carry no PrevBlock link, as for a node that received the fork from round L+1 on (it finalized A_L itself and
+// never saw, or already dropped, the losing proposal of that round). Only the harness' parent map knows H is their parent.
+// Nothing on fork B descends from the latest finalized block, so no finalizeRound call may finalize any of it.
+type c36sibSpec struct {
+	S, L, M, T, AEnd, K int
+	Tail, Cont          int
+	Hidden              bool // false: control, H is known like every other block (only its children's PrevBlock link is missing)
+	Linked              bool // other PrevBlock pointers kept; otherwise every previous block is resolved through the block cache
+	Driven              bool // the latest finalized block is reached by real forward finalization of fork A (rounds 1..L+3) before fork B becomes known
+	Progressive         bool // fork B becomes known round by round (finalizeRound after each round above L)
+	Repeat              bool // finalizeRound is called a second time for the same round
+	ArrivesLater        bool // H becomes available (block cache + its round) after the observed call, which is then made again
+}
+
+func (sp c36sibSpec) relation() string {
+	if sp.S == sp.L-1 {
+		return "sibling-of-lfb"
+	}
+	return "cousin-in-lfb-round"
+}
+
+func (sp c36sibSpec) String() string {
+	return fmt.Sprintf("forks A and B split after the block of round %d; fork A runs to round %d with the latest finalized block in round %d (%s); fork B runs to round %d and continues in %d branch(es) to the top round %d; its block of round %d (a %s) is %s; %d trailing rounds without notarized blocks; %s; late blocks %s",
+		sp.S, sp.AEnd, sp.L, map[bool]string{true: "reached by forward finalization", false: "set directly"}[sp.Driven], sp.M, sp.K, sp.T, sp.L, sp.relation(),
+		map[bool]string{true: "NOT locally available, its children carry no PrevBlock link", false: "known, only its children's PrevBlock link is missing"}[sp.Hidden], sp.Tail,
+		map[bool]string{true: "other PrevBlock pointers linked", false: "PrevBlock resolved through the block cache"}[sp.Linked],
+		map[bool]string{true: "arrive round by round", false: "arrive all at once"}[sp.Progressive])
+}
+
+func (sp c36sibSpec) normalise() c36sibSpec {
+	if sp.L <= sp.S {
+		sp.L = sp.S + 1
+	}
+	if sp.M < sp.L {
+		sp.M = sp.L
+	}
+	if sp.T <= sp.M {
+		sp.T = sp.M + 1
+	}
+	if sp.AEnd < sp.L {
+		sp.AEnd = sp.L
+	}
+	if sp.Driven && sp.AEnd < sp.L+3 {
+		sp.AEnd = sp.L + 3
+	}
+	if sp.T < sp.AEnd {
+		sp.T = sp.AEnd
+	}
+	if sp.K < 1 {
+		sp.K = 1
+	}
+	if sp.Tail > 0 {
+		sp.Cont = 0
+	}
+	if !sp.Hidden {
+		sp.ArrivesLater = false
+	}
+	return sp
+}
+
+func c36sibScenario(run *mon.Run, e *c36Env, wk *c36Worker, rnd *mon.Rand, sp c36sibSpec, idx int) {
+	c := e.c
+	genesis := e.w.GB
+	c.SetLatestFinalizedBlock(genesis)
+	c.SetLatestOwnFinalizedBlockRound(genesis.Round)
+	c.LatestDeterministicBlock = genesis
+	R := sp.T + sp.Tail + sp.Cont
+	parent := map[*block.Block]*block.Block{} // reference ancestry, kept by the harness; never read back from the blocks
+	trueHash := map[*block.Block]string{}     // hash of the true parent
+	var all []*block.Block                    // blocks in the block cache
+	rounds := make([]*round.Round, R+1)
+	notar := make([][]*block.Block, R+1) // locally known notarized blocks per round
+	ranks := make([]int, R+2)
+	for t := 1; t <= R; t++ {
+		r := round.NewRound(int64(t))
+		if c.AddRound(r) != round.RoundI(r) {
+			panic("round already present")
+		}
+		rounds[t] = r
+	}
+	cleanup := func() {
+		c.SetLatestFinalizedBlock(genesis)
+		c.SetLatestOwnFinalizedBlockRound(genesis.Round)
+		c.LatestDeterministicBlock = genesis
+		for t := 1; t <= R; t++ {
+			c.DeleteRound(context.Background(), rounds[t])
+		}
+		c.DeleteBlocks(all)
+	}
+	var hidden *block.Block
+	var orphans []*block.Block // children of the hidden block: their PrevBlock link is missing from the start
+	publish := func(b *block.Block) {
+		t := int(b.Round)
+		c.AddBlock(b)
+		rounds[t].AddNotarizedBlock(b)
+		notar[t] = append(notar[t], b)
+		all = append(all, b)
+	}
+	mk := func(prev *block.Block, hide bool) *block.Block {
+		t := int(prev.Round) + 1
+		b := e.newBlock(prev, ranks[t])
+		ranks[t]++
+		parent[b] = prev
+		trueHash[b] = prev.Hash
+		if hide {
+			hidden = b
+			if sp.Hidden {
+				return b // known to the harness' books only
+			}
+		}
+		if prev == hidden {
+			b.PrevBlock = nil
+			orphans = append(orphans, b)
+		}
+		publish(b)
+		return b
+	}
+	replay := map[string]interface{}{"sibling_scenario": idx, "spec": sp}
+	kinds := map[string]int{}
+	handedOver, reparented := 0, 0
+	call := func(t int, tag string) string {
+		if !sp.Linked {
+			for _, b := range all {
+				b.PrevBlock = nil
+			}
+		}
+		before := c.GetLatestFinalizedBlock()
+		wk.reset()
+		c.VerifUnitchainFinalizeRound(wk.ctx, rounds[t])
+		evs := wk.take()
+		after := c.GetLatestFinalizedBlock()
+		var tops []*block.Block
+		for u := t; u >= 1 && tops == nil; u-- {
+			if len(notar[u]) > 0 {
+				tops = notar[u]
+			}
+		}
+		run.Eval(1)
+		run.Count("sibling_finalize_round_calls", 1)
+		for _, ev := range evs {
+			handedOver++
+			if ev.claimedPrev != trueHash[ev.b] {
+				// evidence only: the verdict comes from the ancestry rule below
+				reparented++
+				run.Count("sibling_obs_handed_over_block_names_other_parent_than_its_true_one", 1)
+			}
+		}
+		kind := c36JudgeCall(run, "sibling", before, after, tops, parent, evs,
+			fmt.Sprintf("sibling scenario %d [%s], finalizeRound(%d) %s, latest finalized block before the call in round %d", idx, sp, t, tag, before.Round), replay)
+		kinds[kind]++
+		run.Count("sibling_move_"+kind, 1)
+		return kind
+	}
+
+	// ---- what is known before fork B shows up
+	trunk := genesis
+	for t := 1; t <= sp.S; t++ {
+		trunk = mk(trunk, false)
+		if sp.Driven {
+			call(t, "while the trunk grows")
+		}
+	}
+	a := trunk
+	var lfbA *block.Block
+	aKnown := sp.AEnd
+	if sp.Driven {
+		aKnown = sp.L + 3
+	}
+	for t := sp.S + 1; t <= aKnown; t++ {
+		a = mk(a, false)
+		if t == sp.L {
+			lfbA = a
+		}
+		if sp.Driven {
+			call(t, "while fork A grows alone")
+		}
+	}
+	if sp.Driven {
+		if c.GetLatestFinalizedBlock() != lfbA {
+			// judged call by call above; without the planned latest finalized block the missing block would not sit in its round
+			run.Count("sibling_obs_driven_lfb_differs_from_plan", 1)
+			cleanup()
+			return
+		}
+	} else {
+		c.SetLatestOwnFinalizedBlockRound(lfbA.Round)
+		c.SetLatestFinalizedBlock(lfbA)
+	}
+
+	// ---- the late part: the rest of fork A, fork B (its block of round L possibly never seen) and its branches
+	b := trunk
+	var branches []*block.Block
+	for t := sp.S + 1; t <= sp.T; t++ {
+		if t > aKnown && t <= sp.AEnd {
+			a = mk(a, false)
+		}
+		switch {
+		case t <= sp.M:
+			b = mk(b, t == sp.L)
+		case t == sp.M+1:
+			for j := 0; j < sp.K; j++ {
+				branches = append(branches, mk(b, false))
+			}
+		default:
+			for j := range branches {
+				branches[j] = mk(branches[j], false)
+			}
+		}
+		if sp.Progressive && t > sp.L && t < sp.T {
+			call(t, "while the late blocks arrive")
+		}
+	}
+	run.Count("sibling_orphan_blocks_built", int64(len(orphans)))
+
+	// ---- the call under observation
+	plfb := c.GetLatestFinalizedBlock()
+	kind := call(sp.T+sp.Tail, "after the late notarizations")
+	if sp.Repeat {
+		call(sp.T+sp.Tail, "called again")
+	}
+	if sp.ArrivesLater && hidden != nil && c.GetLatestFinalizedBlock().Round == hidden.Round {
+		publish(hidden)
+		run.Count("sibling_hidden_block_arrives_later", 1)
+		call(sp.T+sp.Tail, "after the missing block arrived")
+	}
+	// ---- the chain goes on: some of the top blocks are extended
+	tops := append([]*block.Block{}, notar[sp.T]...)
+	for t := sp.T + 1; t <= sp.T+sp.Cont; t++ {
+		n := 1
+		if len(tops) > 1 && rnd.Chance(0.4) {
+			n = 2
+		}
+		var next []*block.Block
+		for j := 0; j < n; j++ {
+			next = append(next, mk(tops[rnd.Intn(len(tops))], false))
+		}
+		tops = next
+		call(t, "while the chain goes on")
+	}
+	if c.GetLatestFinalizedBlock() == plfb {
+		run.Count("sibling_lfb_stayed_on_its_fork", 1)
+	}
+	if handedOver == 0 {
+		run.Count("sibling_scenarios_nothing_handed_over", 1)
+	}
+
+	link := "cache"
+	if sp.Linked {
+		link = "linked"
+	}
+	run.Distinct(fmt.Sprintf("sibling:%s:hidden%v:split%d:lfb+%d:refork+%d:top+%d:aend+%d:k%d:tail%d:cont%d:%s:driven%v:prog%v:later%v:%s",
+		sp.relation(), sp.Hidden, sp.S, sp.L-sp.S, sp.M-sp.L, sp.T-sp.L, sp.AEnd-sp.L, sp.K, sp.Tail, sp.Cont, link, sp.Driven, sp.Progressive, sp.ArrivesLater, kind))
+	run.Count(fmt.Sprintf("sibling_scenarios[%s,hidden=%v]", sp.relation(), sp.Hidden), 1)
+	if sp.Hidden && sp.T+sp.Tail+sp.Cont >= sp.L+4 {
+		run.Count("sibling_scenarios_hidden_and_deep_enough_to_finalize_above_lfb", 1)
+	}
+	if idx < 3 {
+		run.Sample(map[string]interface{}{"kind": "sibling", "spec": sp, "relation": sp.relation(), "lfb_round_before": plfb.Round,
+			"lfb_round_after": c.GetLatestFinalizedBlock().Round, "moves": kinds, "blocks_handed_over": handedOver, "handed_over_with_rewritten_parent": reparented})
+	}
+	cleanup()
+}
+
+func c36Siblings(run *mon.Run, e *c36Env, wk *c36Worker, rnd *mon.Rand, thorough bool) {
+	wk.setRequireConnected(true)
+	idx := 0
+	decorate := func(sp c36sibSpec) c36sibSpec {
+		sp.Hidden = !rnd.Chance(0.15)
+		sp.Tail = 0
+		if rnd.Chance(0.4) {
+			sp.Tail = 1 + rnd.Intn(3)
+		}
+		sp.Cont = rnd.Intn(5)
+		sp.Linked = rnd.Chance(0.5)
+		sp.Driven = rnd.Chance(0.3)
+		sp.Progressive = rnd.Chance(0.3)
+		sp.Repeat = rnd.Chance(0.3)
+		sp.ArrivesLater = rnd.Chance(0.25)
+		return sp.normalise()
+	}
+	// ---- systematic core: split exactly at the round of the latest finalized block (and one / two rounds earlier), the
+	// re-fork point at / above that round, one to three branches, fork A ending at / after the latest finalized block
+	for _, s := range []int{0, 1, 3} {
+		for dL := 1; dL <= 3; dL++ {
+			if dL == 3 && s != 1 {
+				continue
+			}
+			L := s + dL
+			for dM := 0; dM <= 4; dM++ {
+				for dT := 1; dT <= 3; dT++ {
+					T := L + dM + dT
+					for _, aEnd := range []int{L, L + 1, T} {
+						for k := 1; k <= 3; k++ {
+							checkpoint(run)
+							c36sibScenario(run, e, wk, rnd, decorate(c36sibSpec{S: s, L: L, M: L + dM, T: T, AEnd: aEnd, K: k}), idx)
+							idx++
+						}
+					}
+				}
+			}
+		}
+	}
+	run.Set("sibling_systematic_scenarios", idx)
+	// ---- seeded random, wider ranges; two thirds split exactly at the round of the latest finalized block
+	n := 400
+	if thorough {
+		n = 15000
+	}
+	for i := 0; i < n; i++ {
+		checkpoint(run)
+		s := rnd.Intn(6)
+		L := s + 1
+		if rnd.Chance(0.33) {
+			L = s + 2 + rnd.Intn(3)
+		}
+		M := L + rnd.Intn(7)
+		T := M + 1 + rnd.Intn(4)
+		aEnd := L + rnd.Intn(T-L+1)
+		c36sibScenario(run, e, wk, rnd, decorate(c36sibSpec{S: s, L: L, M: M, T: T, AEnd: aEnd, K: 1 + rnd.Intn(3)}), idx)
+		idx++
+	}
+	run.Set("sibling_scenarios", idx)
 }
